@@ -1889,3 +1889,42 @@ Section Exec7.
       + rewrite wt_msg_unfold, Hgm, Hws, Hoo. reflexivity.
   Qed.
 End Exec7.
+
+(* ---------------------------------------------------------------- the theorem *)
+Lemma unmarshal_at_nil sch discard f d m mdm bs : get_msg sch m = Some mdm ->
+  unmarshal_at sch discard f d m VNil bs = unmarshal_at sch discard f d m (empty_msg mdm) bs.
+Proof. intro Hg. destruct f as [|f]; [reflexivity|]. cbn [unmarshal_at]. rewrite Hg. reflexivity. Qed.
+
+Lemma unmarshal_at_child_wt sch discard f d : child_wt sch (unmarshal_at sch discard f d).
+Proof. intros m tg p v Htg H. eapply unmarshal_at_wt; eassumption. Qed.
+
+Lemma unmarshal_prog_correct : forall sch discard f depth mid target bs,
+  wf sch = true -> (mid < length sch)%nat ->
+  (target = VNil \/ wt_msg sch mid target = true) ->
+  Z.of_nat (length bs) + 8 < Z.of_N two63 ->
+  run_unmarshal sch discard (unmarshal_at sch discard f (depth - 1)) depth mid (canon_unmarshal sch mid) target bs
+  = Some (unmarshal_at sch discard (S f) depth mid target bs).
+Proof.
+  intros sch discard f depth mid target bs Hwf Hmid Htg Hlen8.
+  assert (Hlen : Z.of_nat (length bs) < Z.of_N two63) by lia.
+  unfold run_unmarshal, canon_unmarshal. cbn [unmarshal_at].
+  destruct (get_msg sch mid) as [md|] eqn:Hgm.
+  2:{ unfold get_msg in Hgm. apply nth_error_None in Hgm. lia. }
+  assert (Hmwf : msg_wf (length sch) md = true).
+  { unfold wf in Hwf. rewrite forallb_forall in Hwf. apply Hwf. eapply nth_error_In. exact Hgm. }
+  set (child := unmarshal_at sch discard f (depth - 1)).
+  set (init := match target with VMsg _ _ => target | _ => empty_msg md end).
+  assert (Hinit : wt_msg sch mid init = true).
+  { subst init. destruct Htg as [->|Ht]; [apply empty_msg_wt; exact Hgm|]. destruct target; try discriminate Ht. exact Ht. }
+  destruct init as [| | | | | |ss u| |] eqn:Einit; try discriminate Hinit.
+  cbn [slots_of unk_of].
+  change {| us_idx := 0; us_rest := bs; us_slots := ss; us_unk := u |} with
+         {| us_idx := 0; us_rest := sfx bs 0; us_slots := ss; us_unk := u |}.
+  atom. ifret. destruct (depth <=? 0); [reflexivity|].
+  atom. rewrite set_idx_at by lia.
+  rewrite run_for.
+  pose proof (main_loop sch discard child depth (m_fields md) bs (S (length bs)) Hlen Hlen8 md eq_refl ltac:(lia)
+                (fun m mdm p Hg => unmarshal_at_nil sch discard f (depth - 1) m mdm p Hg)
+                (unmarshal_at_child_wt sch discard f (depth - 1)) mid Hgm Hmwf (S (length bs)) 0 ss u ltac:(lia) Hinit) as Hmain.
+  unfold main_body in Hmain. rewrite Hmain. reflexivity.
+Qed.
